@@ -383,8 +383,17 @@ impl<'src, D> Recipe<'src, D> {
         .first()
         .ok_or_else(|| Error::internal("evaluated_lines was empty"))?;
 
-      let shebang =
-        Shebang::new(line).ok_or_else(|| Error::internal(format!("bad shebang line: {line}")))?;
+      // a line that starts with `#!` but names no interpreter (`#!` alone, or
+      // `#!{{x}}` with an empty `x`) is the user's mistake, not an internal error
+      let shebang = Shebang::new(line).ok_or_else(|| Error::Shebang {
+        argument: None,
+        command: String::new(),
+        io_error: io::Error::new(
+          io::ErrorKind::InvalidInput,
+          "shebang line names no interpreter",
+        ),
+        recipe: self.name(),
+      })?;
 
       Executor::Shebang(shebang)
     };
